@@ -94,3 +94,63 @@ pub fn run_aliaskeys(seed: u64, budget: u64, out: &mut RunOut) {
         out.stats.histories += 1;
     }
 }
+
+// ------------------------------------------------------------------------------ keys whose equality is not byte equality
+
+/// `PathBuf` keys looked up through `&Path`: "a/b", "a//b", "a/./b" and "a/b/" are one key (equal, same hash) spelled with
+/// different bytes and lengths. The model is keyed by the normalised component list.
+pub fn run_pathkeys(seed: u64, budget: u64, out: &mut RunOut) {
+    use std::path::{Path, PathBuf};
+    let bases = ["a/b", "a/b/c", "x", "usr/lib/y", "a", "a/bb", "k/l/m/n"];
+    fn spell(rng: &mut Rng, base: &str) -> String {
+        let parts: Vec<&str> = base.split('/').collect();
+        let mut t = String::new();
+        for (i, p) in parts.iter().enumerate() {
+            if i > 0 { t.push_str(match rng.below(4) { 0 => "//", 1 => "/./", 2 => "///", _ => "/" }); }
+            t.push_str(p);
+        }
+        match rng.below(4) { 0 => t.push('/'), 1 => t.push_str("/."), _ => {} }
+        t
+    }
+    let canon = |p: &Path| -> String { p.components().map(|c| c.as_os_str().to_string_lossy().into_owned()).collect::<Vec<_>>().join("/") };
+    let mut rng = Rng::new(seed ^ 0x9a7);
+    let mut token = 0u64;
+    let start = out.stats.events;
+    while out.stats.events - start < budget {
+        let hk = crate::types::TH_KINDS[rng.usize_below(crate::types::TH_KINDS.len())];
+        let cfg = HistCfg { hk, cap0: None, max: usize::MAX >> 1, universe: bases.len() as u32, events: 0, extreme: false };
+        let mut c: LruCache<PathBuf, u64, TH> = LruCache::with_hasher(cfg.max, TH(hk, crate::types::next_hasher_seed()));
+        let mut model: Vec<(String, u64)> = Vec::new();
+        let mut log: Vec<String> = Vec::new();
+        for _ in 0..rng.range(20, 200) {
+            out.stats.events += 1;
+            token += 1;
+            let bi = rng.usize_below(bases.len()); let text = spell(&mut rng, bases[bi]);
+            let q: &Path = Path::new(&text);
+            let key = canon(q);
+            let pos = model.iter().position(|(t, _)| *t == key);
+            let respelled = pos.is_some() && c.peek_entry(q).map(|(k, _)| k.as_os_str() != q.as_os_str()).unwrap_or(true);
+            if respelled { out.stats.count("c04_path_lookups_with_another_spelling_of_a_stored_key"); }
+            let kind = rng.below(10);
+            out.stats.eval("C04", mix(&[4141, kind, pos.is_some() as u64, respelled as u64, hk as u64]));
+            let mut bad: Option<String> = None;
+            macro_rules! expect { ($got:expr, $want:expr) => {{ let g = $got; let w = $want; if g != w { bad = Some(format!("returned {:?}, a sequential map returns {:?}", g, w)); } }}; }
+            let name = match kind {
+                0 | 1 => { let r = c.insert(q.to_path_buf(), token).ok().flatten(); let w = pos.map(|p| model.remove(p).1); model.push((key.clone(), token)); expect!(r, w); "insert" }
+                2 => { expect!(c.contains(q), pos.is_some()); "contains" }
+                3 => { expect!(c.peek(q).copied(), pos.map(|p| model[p].1)); "peek" }
+                4 => { let r = c.get(q).copied(); let w = pos.map(|p| { let e = model.remove(p); model.push(e.clone()); e.1 }); expect!(r, w); "get" }
+                5 => { c.touch(q); if let Some(p) = pos { let e = model.remove(p); model.push(e); } "touch" }
+                6 => { let r = c.remove(q); let w = pos.map(|p| model.remove(p).1); expect!(r, w); "remove" }
+                7 => { let r = c.mutate(q, |v| { *v += 1; *v }).ok().flatten(); let w = pos.map(|p| { let mut e = model.remove(p); e.1 += 1; model.push(e.clone()); e.1 }); expect!(r, w); "mutate" }
+                8 => { let r = c.try_insert(q.to_path_buf(), token).is_ok(); if pos.is_none() { model.push((key.clone(), token)); } expect!(r, pos.is_none()); "try_insert" }
+                _ => { let r = c.get_entry(q).map(|(k, v)| (canon(k), *v)); let w = pos.map(|p| { let e = model.remove(p); model.push(e.clone()); e }); expect!(r, w); "get_entry" }
+            };
+            log.push(format!("{} {:?}", name, text));
+            if let Some(m) = bad { fail(out, "path-lookup", format!("{} of the path {:?} (key {:?}) {}", name, text, key, m), &cfg, &log); break; }
+            let got: Vec<(String, u64)> = c.iter().map(|(k, v)| (canon(k), *v)).collect();
+            if got != model { fail(out, "path-contents", format!("after {} of {:?}: contents {:?}, a sequential map holds {:?}", name, text, got, model), &cfg, &log); break; }
+        }
+        out.stats.histories += 1;
+    }
+}
